@@ -18,7 +18,7 @@ package main
 //	matrix      []string   row i, column j: '1' vi.Equals(vj) true, '0' false, 'P' panic, '-' not evaluated
 //	                       (diagonal: the very same value on both sides)
 //	dup         string     char i: vi.Equals(second decoding of document i)
-//	panics      []string   "i,j: message" (first 8)
+//	panics      []string   "i,j: message"
 //	calls       int        number of Equals evaluations
 const hookSrc = `package main
 
@@ -103,9 +103,7 @@ func eqMatrix(req map[string]any) map[string]any {
 	calls := 0
 	var panics []string
 	note := func(i, j int, msg string) {
-		if len(panics) < 8 {
-			panics = append(panics, fmt.Sprintf("%d,%d: %s", i, j, msg))
-		}
+		panics = append(panics, fmt.Sprintf("%d,%d: %s", i, j, msg))
 	}
 	matrix := make([]string, n)
 	dup := make([]byte, n)
